@@ -579,6 +579,28 @@ BOUNDARY_HELPER_OK = {
 }
 
 
+def _reads_one_line_at_most(h):
+    """A helper that fetches a record head: at most one `next(<its iterator parameter>)`, outside any loop, and the
+    iterator is handed to nobody else."""
+    itp = h.posparams[0] if h.posparams else None
+    if itp is None:
+        return False
+    nexts = 0
+    for n in h.own_nodes():
+        if isinstance(n, (ast.For, ast.While)) and any(isinstance(x, ast.Call) and any(isinstance(a, ast.Name) and a.id == itp for a in x.args) for b in n.body for x in ast.walk(b)):
+            return False
+        if isinstance(n, (ast.For,)) and isinstance(n.iter, ast.Name) and n.iter.id == itp:
+            return False
+        if isinstance(n, ast.Call) and any(isinstance(a, ast.Name) and a.id == itp for a in n.args):
+            if isinstance(n.func, ast.Name) and n.func.id == "next":
+                nexts += 1
+            elif isinstance(n.func, ast.Name) and n.func.id in ("LoadError", "LoadWarning"):
+                continue
+            else:
+                return False
+    return nexts <= 1
+
+
 def check_boundary_handlers(ctx, rid):
     """Frame parsers of the trajectory formats (`load_one` and the helpers it reaches): a `try` whose handler accepts
     StopIteration without raising may only cover the fetch of the *next record head* -- `line = next(lit)` (possibly
@@ -625,9 +647,11 @@ def check_boundary_handlers(ctx, rid):
                         for h in callees:
                             if (g.qualname, h.qualname) in BOUNDARY_HELPER_OK:
                                 continue
-                            # a package function that is handed the line iterator reads inside a record
+                            # a package function that is handed the line iterator reads inside a record -- unless it is
+                            # itself a record-head reader (one `next` on its iterator parameter, no loop, no hand-over)
                             if any(isinstance(a, ast.Name) and a.id in ("lit",) for a in x.args) or any(isinstance(a, ast.Name) and a.id in g.posparams[:1] for a in x.args):
-                                offending = (x, h)
+                                if not _reads_one_line_at_most(h):
+                                    offending = (x, h)
                     # reading more than record heads: a conversion of what was read (int(), float(), indexing words)
                     # belongs to a record as well -- but is not an end-of-input matter; only consumption counts here
                 if offending is not None:
